@@ -25,6 +25,7 @@ type World struct {
 	funcs     map[string]*ssa.Function
 	contracts map[string]*FuncContract
 	pures     map[string]*PureFunc
+	verifiedHere map[string]bool // functions verified in this run (modular contracts used elsewhere are trusted there)
 	ghosts    map[string]SType
 	ghostSrc  map[string]GhostField
 	ghostAlias map[string]string
